@@ -21,8 +21,8 @@ theorem segwitPrefix_one (t : List UInt8) : segwitPrefix Spec.registeredHrps (49
       have : Spec.registeredHrps.contains (lowerStr (49 :: h')) = false := by
         have e : lowerStr (49 :: h') = 49 :: lowerStr h' := rfl
         rw [e]
-        simp [Spec.registeredHrps, Spec.registered, Spec.mainNet, Spec.testNet3, Spec.testNet4, Spec.regNet,
-          Spec.simNet]
+        simp [Spec.registeredHrps, Spec.registered, Spec.customNet, Spec.mainNet, Spec.testNet3, Spec.testNet4,
+          Spec.regNet, Spec.simNet]
       rw [this]; simp
 
 /-- Base58Check with version byte 0 starts with `'1'` -/
